@@ -16,6 +16,30 @@ namespace occa {
     *this = load(c);
   }
 
+  // The type of an integer literal is the first type that can represent
+  // its value from a list which depends on its base and suffix [lex.icon]:
+  //   decimal              : int, long
+  //   hex / octal / binary : int, unsigned int, long, unsigned long
+  //   u suffix             : only the unsigned types
+  //   l / ll suffix        : only the 64-bit types
+  static primitive integerLiteral(const uint64_t value,
+                                  const bool isDecimal,
+                                  const bool unsigned_,
+                                  const int longs) {
+    if (longs == 0) {
+      if (!unsigned_ && (value <= (uint64_t) INT32_MAX)) {
+        return primitive((int32_t) value);
+      }
+      if ((unsigned_ || !isDecimal) && (value <= (uint64_t) UINT32_MAX)) {
+        return primitive((uint32_t) value);
+      }
+    }
+    if (!unsigned_ && (value <= (uint64_t) INT64_MAX)) {
+      return primitive((int64_t) value);
+    }
+    return primitive((uint64_t) value);
+  }
+
   primitive primitive::load(const char *&c,
                             const bool includeSign) {
     bool loadedFormattedValue = false;
@@ -66,10 +90,11 @@ namespace occa {
       if ((C == 'B') || (C == 'X')) {
         loadedFormattedValue = true;
 
+        // The sign is applied once the literal has its type
         if (C == 'B') {
-          p = primitive::loadBinary(++c, negative);
+          p = primitive::loadBinary(++c);
         } else if (C == 'X') {
-          p = primitive::loadHex(++c, negative);
+          p = primitive::loadHex(++c);
         }
 
         if (p.type & primitiveType::none) {
@@ -81,6 +106,7 @@ namespace occa {
       }
     }
 
+    const char *cDigits = c;
     if (!loadedFormattedValue) {
       while (true) {
         if (('0' <= *c) && (*c <= '9')) {
@@ -93,6 +119,7 @@ namespace occa {
         ++c;
       }
     }
+    const char *cDigitsEnd = c;
 
     if (!loadedFormattedValue && !digits) {
       c = c0;
@@ -128,18 +155,9 @@ namespace occa {
 
     if (loadedFormattedValue) {
       // Hex and binary only handle U, L, and LL
-      if (longs == 0) {
-        if (unsigned_) {
-          p = p.to<uint32_t>();
-        } else {
-          p = p.to<int32_t>();
-        }
-      } else if (longs >= 1) {
-        if (unsigned_) {
-          p = p.to<uint64_t>();
-        } else {
-          p = p.to<int64_t>();
-        }
+      p = integerLiteral(p.to<uint64_t>(), false, unsigned_, longs);
+      if (negative) {
+        p = primitive::negative(p);
       }
     } else {
       // Handle the multiple other formats with normal digits
@@ -150,19 +168,19 @@ namespace occa {
           p = (double) occa::parseDouble(std::string(c0, c - c0));
         }
       } else {
-        uint64_t value_ = parseInt(std::string(c0, c - c0));
-        if (longs == 0) {
-          if (unsigned_) {
-            p = (uint32_t) value_;
-          } else {
-            p = (int32_t) value_;
+        // A leading 0 starts an octal literal
+        const bool isDecimal = (*cDigits != '0');
+        uint64_t value_ = 0;
+        if (isDecimal) {
+          for (const char *cDigit = cDigits; cDigit < cDigitsEnd; ++cDigit) {
+            value_ = (10 * value_) + (uint64_t) (*cDigit - '0');
           }
-        } else if (longs >= 1) {
-          if (unsigned_) {
-            p = (uint64_t) value_;
-          } else {
-            p = (int64_t) value_;
-          }
+        } else {
+          value_ = parseBinary(std::string(cDigits, cDigitsEnd - cDigits).c_str());
+        }
+        p = integerLiteral(value_, isDecimal, unsigned_, longs);
+        if (negative) {
+          p = primitive::negative(p);
         }
       }
     }
